@@ -43,6 +43,31 @@ Theorem C02_geometry_save_exact : forall is_extra old sources v prims,
 Proof. exact mesh_sync_meets_spec. Qed.
 Print Assumptions C02_geometry_save_exact.
 
+(* Effect.save (newparam children of profile_COMMON) and MaterialNode.save (bind_vertex_input
+   children): the managed children are exactly the model's, in order, and the unmanaged ones
+   (<image>, <technique>, <extra>; <bind>, <extra>) keep identity and relative order *)
+Theorem C02_effect_params_exact : forall is_param tec old params,
+  (forall x, In x params -> is_param x = true) ->
+  sync_spec is_param old params (profile_sync is_param tec old params).
+Proof. exact profile_sync_meets_spec. Qed.
+Print Assumptions C02_effect_params_exact.
+
+Theorem C02_instance_material_exact : forall is_bvi is_bind old inputs,
+  (forall x, In x inputs -> is_bvi x = true) ->
+  sync_spec is_bvi old inputs (instance_material_sync is_bvi is_bind old inputs).
+Proof. exact instance_material_sync_meets_spec. Qed.
+Print Assumptions C02_instance_material_exact.
+
+(* a node's matrix: over ANY monoid of matrices, the transform children of the saved element, in
+   document order, are the current transform list, hence give the matrix that list implies *)
+Theorem C02_node_matrix_follows_transforms :
+  forall (M : Type) (mul : M -> M -> M) (one : M) (mat : N -> M) old ts cs,
+  NoDup old -> NoDup (ts ++ cs) ->
+  firstn (length ts) (node_sync old ts cs) = ts /\
+  node_matrix M mul one mat (firstn (length ts) (node_sync old ts cs)) = node_matrix M mul one mat ts.
+Proof. exact node_matrix_follows_transforms. Qed.
+Print Assumptions C02_node_matrix_follows_transforms.
+
 (* whole trees: whatever the XML elements contain before the save (heap: any duplicate-free
    child list for every element identity), saving a model gives the emission of that model *)
 Theorem C02_save_onto_is_emit : forall heap, (forall u, NoDup (heap u)) ->
